@@ -1,31 +1,61 @@
 // c03 harness.
-//
-//	sel 1   real scheduling cycles (allocate / backfill with the real gang, priority and proportion
-//	        plugins) against the action skeleton model; law selector 103 (shared cycle harness).
-//	sel 2/3 queue votes of the capacity (flat, hierarchical) and proportion plugins against
-//	        coq/theories/C03/CapacityModel.v; laws 110-114 (votes.go, gen.go).
+//   sel 1   real scheduling cycles (allocate / backfill with the real gang, priority and proportion
+//           plugins) against the action skeleton model; law selector 103 (shared cycle harness).
+//   sel 2/3 queue votes of the capacity (flat, hierarchical) and proportion plugins against
+//           coq/theories/C03/CapacityModel.v; laws 110-114 (votes.go, gen.go).
+//   sel 4   regression stream: the real reclaim action on hierarchical queues; law 116
+//           (reclaim_stream.go; defect repaired by /repo bd1440f).
+//   sel 5   regression stream: a vote must not change the stored hierarchy nor later votes; law 117
+//           (alias_stream.go; defect repaired by /repo 6f3139f).
 package main
 
 import (
+	"fmt"
+
 	"verif/harness/internal/sched"
 	"verif/harness/internal/vh"
 )
 
 func main() {
+	if probe() {
+		return
+	}
 	cyc := sched.CycleHarness(103, true)
 	var last voteRun
+	var lastObs []int64
 	h := vh.Harness{
 		Run2: func(sel int, in []int64) ([]int64, []int64) {
-			if sel == 1 {
+			switch sel {
+			case 1:
 				return cyc.Run2(sel, in)
+			case 4:
+				if len(in) != 8 {
+					panic("reclaim case: 8 tokens expected")
+				}
+				lastObs = runReclaimCase(in)
+				// correspondence part: the model only validates the shape of the input
+				return in, []int64{1}
+			case 5:
+				if len(in) != 5 {
+					panic("alias case: 5 tokens expected")
+				}
+				lastObs = runAliasCase(in)
+				return in, []int64{1}
 			}
 			modelIn, got, vr := runVotes(in)
 			last = vr
 			return modelIn, got
 		},
 		Laws: func(sel int, in, got []int64, law func(lsel int, lin []int64, sig string)) {
-			if sel == 1 {
+			switch sel {
+			case 1:
 				cyc.Laws(sel, in, got, law)
+				return
+			case 4:
+				law(116, lastObs, "")
+				return
+			case 5:
+				law(117, lastObs, "")
 				return
 			}
 			li := last.lawInput()
@@ -36,7 +66,31 @@ func main() {
 		Gen: func(rng *vh.Rng, n int, emit func(id string, sel int, in []int64, kind string, nontrivial bool, desc any)) {
 			cyc.Gen(rng, n, emit)
 			genVoteStream(rng.Fork(), 4*n, emit)
+			genRegressionStreams(rng.Fork(), n, emit)
 		},
 	}
 	h.Main()
+}
+
+// genRegressionStreams: the two fixed witnesses first (the inputs that exposed the defects), then
+// random members of the two families.  A reclaim case is non-trivial when the leaf's Preemptive
+// vote is positive while Allocatable is negative (an ancestor is the binding limit); an alias case
+// when the hierarchy is deep enough for Go's append to share a backing array (depth >= 5).
+func genRegressionStreams(rng *vh.Rng, n int, emit func(id string, sel int, in []int64, kind string, nontrivial bool, desc any)) {
+	emitReclaim := func(id string, in []int64) {
+		obs := runReclaimCase(in)
+		emit(id, 4, in, "reclaim-hierarchical/capacity+gang/gates=default", obs[0] == 1 && obs[1] == 0,
+			map[string]any{"capParent": in[0], "a": in[1], "b": in[2], "req": in[3], "c": in[4], "deservedB": in[5], "deservedC": in[6], "siblingVictims": in[7]})
+	}
+	emitAlias := func(id string, in []int64) {
+		emit(id, 5, in, "vote-isolation/capacity-hierarchical/gates=default", in[0] >= 5,
+			map[string]any{"depth": in[0], "capC2": in[1], "held": in[2], "req": in[3], "viaEnqueue": in[4]})
+	}
+	emitReclaim("reclaim-witness", []int64{10, 6, 4, 2, 10, 8, 5, 0})
+	emitAlias("alias-witness", []int64{5, 2, 2, 1, 0})
+	emitAlias("alias-witness-enqueue", []int64{5, 2, 2, 1, 1})
+	for i := 0; i < n; i++ {
+		emitReclaim(fmt.Sprintf("reclaim-%d", i), genReclaimCase(rng.Fork()))
+		emitAlias(fmt.Sprintf("alias-%d", i), genAliasCase(rng.Fork()))
+	}
 }
